@@ -79,7 +79,7 @@ func (c06) Generate(r *engine.Rand, index int, tier string) *engine.Scenario {
 		sc.Cycles = 1
 		return sc
 	}
-	if index%8 == 5 {
+	if index%16 == 5 {
 		// the timer registers under a running, frequently overflowing timer: TMA and TAC read back
 		// what was written whenever the write lands (reload cycles included)
 		sc.Class = "timer-hot"
@@ -113,7 +113,7 @@ func (c06) Generate(r *engine.Rand, index int, tier string) *engine.Scenario {
 		sc.Cycles = at + 8
 		return sc
 	}
-	if index%8 == 1 {
+	if index%16 == 13 {
 		// IE and IF while the CPU dispatches: the guest loop runs with the master enable set, so
 		// written requests are taken; IE stays plain memory and IF keeps its unused bits
 		sc.Class = "ie-dispatch"
